@@ -333,6 +333,10 @@ func (x *Exec) zeroValue(t types.Type) Value {
 func (x *Exec) freshValue(st *State, t types.Type, name string) Value {
 	name = sanitize(name)
 	return x.fromLeaves(t, "", func(li leafInfo) *Term {
+		if li.Kind == "off" {
+			// a fresh view over a fresh array: offset 0 loses no generality
+			return IntLit(0)
+		}
 		v := Var(x.fresh(name+sanitize(li.Path)), li.Sort)
 		switch li.Kind {
 		case "int":
